@@ -1,6 +1,6 @@
 """BlockManager family: C01 (stored chain always valid), C02 (reorganisation
 rules and completeness), C19 (chain events mirror the committed chain)."""
-import json, os, random, shutil, time
+import json, os, random, shutil, sys, time
 from .. import core, family
 from . import bm_universe
 
@@ -15,12 +15,13 @@ PROPS = {
     "C02": ["StoreChangedWithoutHeaders", "AdoptedNotFromBatch", "ReorgBelowCheckpoint", "ReorgNotHeavier",
             "IllegalTruncation", "WorkDecreased", "ExtensionAdoptedInFull", "HeavierBranchAdoptedInFull",
             "HandlerPanicked"],
-    "C19": ["DisconnectEvents", "ConnectEvents", "EventOrder", "BacklogExact"],
+    "C19": ["DisconnectEvents", "ConnectEvents", "EventOrder", "BacklogExact", "BacklogAtEvent"],
 }
 CODE_VERSION = json.load(open(os.path.join(SPEC, "code_version.json")))
 CONFIGS = {
-    "quick": dict(universe="small", MaxMsgs=3, MaxRestarts=1),
-    "thorough": dict(universe="quick", MaxMsgs=4, MaxRestarts=1),
+    "quick": [dict(universe="u1", MaxMsgs=3, MaxRestarts=0, MaxFaults=0)],
+    "thorough": [dict(universe="u1", MaxMsgs=3, MaxRestarts=1, MaxFaults=1),
+                 dict(universe="quick", MaxMsgs=4, MaxRestarts=1, MaxFaults=0)],
 }
 _COMMON_NOTE = ("Bounded: header universe of 10 (quick) / 13 (thorough) headers incl. forks below/at/above a checkpoint, "
                 "tie / heavier-by-one branches, an invalid header with a valid child; 2 peers; every connected batch of <= 3 "
@@ -90,42 +91,121 @@ def label(a):
     return s
 
 
-def run(prop_id, tier, seed, replay=None):
-    t0 = time.time()
-    rng = random.Random(seed)
-    cfg = dict(CONFIGS[tier])
-    uni = bm_universe.UNIVERSES[cfg.pop("universe")]()
+def run_one(prop_id, cfg, rng, sc, replay=None):
+    cfg = dict(cfg)
+    uname = cfg.pop("universe")
+    uni = bm_universe.UNIVERSES[uname]()
     consts = dict(cfg)
     consts.update(CODE_VERSION)
     _CP["ids"] = set(uni["checkpoints"].values())
+    os.makedirs(sc)
+    udir = os.path.join(sc, "uni")
+    os.makedirs(udir)
+    open(os.path.join(udir, "Universe.tla"), "w").write(bm_universe.tla(uni))
+    uf = os.path.join(sc, "universe.json")
+    json.dump(uni, open(uf, "w"))
+    pf = os.path.join(sc, "paths.ndjson")
+    if replay:
+        d = json.load(open(replay))
+        tr = d["trace"]
+        steps = [{"act": x["act"], "obs": x["obs"], "viol": []} for x in tr["steps"] if not x.get("note")]
+        open(pf, "w").write(json.dumps({"id": 0, "init_obs": tr.get("init_obs"), "init": d.get("init"),
+                                        "steps": steps}) + "\n")
+        tlc, g, paths, unreach = family._NoTLC(), None, [0], 0
+    else:
+        tlc = core.run_tlc([SPEC, udir], "BlockManager", consts, workers=1, invariants=["TypeOK"],
+                           workdir=os.path.join(sc, "tlc"), timeout=6000)
+        if not tlc.ok:
+            raise core.MachineryError("TLC on BlockManager failed: %s\n%s" % (tlc.error, tlc.stdout_tail[-3000:]))
+        g = core.Graph.load(tlc)
+        paths, unreach = core.edge_cover(g, rng)
+        core.write_paths(g, paths, pf)
+    binary = os.path.join(os.path.dirname(sc), "neutrino.test")
+    if not os.path.exists(binary):
+        family.build_overlay_test(PKG, [DRIVER], binary)
+    observed, log = family.run_driver(binary, "TestVerifBlockManagerReplay", pf,
+                                      os.path.join(sc, "obs.ndjson"), sc, timeout=7200,
+                                      env_extra={"VERIF_UNIVERSE": uf})
+    verdict = family.judge([SPEC, udir], "BlockManagerProps", PROPS[prop_id], prop_id, observed, label=label)
+    dr = family.drift(pf, observed, label=label)
+    inits = {}
+    for line in open(pf):
+        d = json.loads(line)
+        inits[d["id"]] = d.get("init")
+    return dict(uname=uname, uni=uni, consts=consts, tlc=tlc, g=g, paths=paths, unreach=unreach,
+                observed=observed, verdict=verdict, drift=dr, inits=inits)
+
+
+def run(prop_id, tier, seed, replay=None):
+    t0 = time.time()
+    rng = random.Random(seed)
     sc = core.scratch("bm")
     try:
-        udir = os.path.join(sc, "uni")
-        os.makedirs(udir)
-        open(os.path.join(udir, "Universe.tla"), "w").write(bm_universe.tla(uni))
-        uf = os.path.join(sc, "universe.json")
-        json.dump(uni, open(uf, "w"))
-        pf = os.path.join(sc, "paths.ndjson")
         if replay:
-            family.paths_from_replay(replay, pf)
-            tlc, g, paths, unreach = family._NoTLC(), None, [0], 0
+            rd = json.load(open(replay))
+            cfgs = [dict(universe=rd.get("universe", "u1"), MaxMsgs=1, MaxRestarts=0, MaxFaults=0)]
         else:
-            tlc = core.run_tlc([SPEC, udir], "BlockManager", consts, workers=1, invariants=["TypeOK"],
-                               workdir=os.path.join(sc, "tlc"), timeout=3000)
-            if not tlc.ok:
-                raise core.MachineryError("TLC on BlockManager failed: %s\n%s" % (tlc.error, tlc.stdout_tail[-3000:]))
-            g = core.Graph.load(tlc)
-            paths, unreach = core.edge_cover(g, rng)
-            core.write_paths(g, paths, pf)
-        binary = family.build_overlay_test(PKG, [DRIVER], os.path.join(sc, "neutrino.test"))
-        observed, log = family.run_driver(binary, "TestVerifBlockManagerReplay", pf,
-                                          os.path.join(sc, "obs.ndjson"), sc,
-                                          env_extra={"VERIF_UNIVERSE": uf})
-        verdict = family.judge([SPEC, udir], "BlockManagerProps", PROPS[prop_id], prop_id, observed, label=label)
-        dr = family.drift(pf, observed, label=label)
-        return family.finish(prop_id, tier, seed, t0, tlc, g, paths, observed, verdict, dr,
-                             {"config": consts, "universe": uni,
-                              "edges_only_reachable_through_model_violation": unreach},
-                             ASSUMPTIONS, label=label)
+            cfgs = CONFIGS[tier]
+        runs = [run_one(prop_id, c, rng, os.path.join(sc, "r%d" % i), replay) for i, c in enumerate(cfgs)]
+        rc = 0
+        known = {}
+        nviol = 0
+        for r in runs:
+            _CP["ids"] = set(r["uni"]["checkpoints"].values())
+            for kid, k in sorted(r["verdict"]["known"].items()):
+                if kid in known:
+                    known[kid]["count"] += k["count"]
+                else:
+                    known[kid] = k
+            for v in r["verdict"]["violations"]:
+                nviol += 1
+                if nviol > 10:
+                    continue
+                fn = core.save_replay(prop_id, {"property": prop_id, "universe": r["uname"], "props": v["props"],
+                                                "step": v["step"], "labels": v["labels"],
+                                                "init": r["inits"].get(v["trace"]), "trace": v["observed"]})
+                print("VIOLATION property=%s replay=%s" % (prop_id, fn))
+                print("  violated: %s at step %d of: [universe %s, stored %s] %s" % (
+                    ",".join(v["props"]), v["step"], r["uname"],
+                    (r["inits"].get(v["trace"]) or {}).get("bfile"), " ".join(v["labels"])))
+                rc = 1
+            errs = [t for t in r["observed"] if t.get("error")]
+            if errs:
+                print("MACHINERY: %d paths ended in a driver error, e.g. %s" % (len(errs), errs[0]["error"][:600]),
+                      file=sys.stderr)
+                rc = rc or 2
+            if r["drift"][1]:
+                print("drift: %d of %d replayed paths left the model's prediction (universe %s; not a verdict)" % (
+                    r["drift"][1], len(r["observed"]), r["uname"]), file=sys.stderr)
+        for kid, k in sorted(known.items()):
+            print("KNOWN-FINDING: property=%s %s [%s; seen on %d replayed traces, e.g. %s]" % (
+                prop_id, k["entry"]["what_fails"], kid, k["count"], " ".join(k["example"])))
+        samples = []
+        for r in runs:
+            for t in r["observed"][:2]:
+                samples.append({"universe": r["uname"], "stored_at_start": (r["inits"].get(t["id"]) or {}).get("bfile"),
+                                "path": [label(x["act"]) for x in t["steps"]],
+                                "last_obs": t["steps"][-1]["obs"] if t["steps"] else t.get("init_obs")})
+        cov = {
+            "states": max(1, sum(r["tlc"].distinct for r in runs)),
+            "transitions": max(1, sum(len(r["g"].edges) if r["g"] else 0 for r in runs)),
+            "traces_validated_against_impl": sum(len(r["observed"]) for r in runs),
+            "samples": samples, "exhaustive": True,
+            "replayed_steps": sum(sum(len(t["steps"]) for t in r["observed"]) for r in runs),
+            "judged_lines_by_tlc": sum(r["verdict"]["n_lines"] for r in runs),
+            "model_violating_edges": sum(sum(1 for e in r["g"].edges if e[4]) if r["g"] else 0 for r in runs),
+            "drift": {"paths": sum(r["drift"][1] for r in runs), "steps_compared": sum(r["drift"][0] for r in runs),
+                      "samples": [x for r in runs for x in r["drift"][2]][:5]},
+            "known_findings_seen": {k: v["count"] for k, v in known.items()},
+            "new_violations": nviol,
+            "configs": [{"universe": r["uname"], "constants": r["consts"], "tlc_states": r["tlc"].distinct,
+                         "tlc_generated": r["tlc"].generated, "tlc_wall_s": round(r["tlc"].wall, 1),
+                         "edges": len(r["g"].edges) if r["g"] else 0, "paths": len(r["paths"]),
+                         "headers": len(r["uni"]["headers"]), "batches": len(r["uni"]["batches"]),
+                         "init_chains": r["uni"]["init_chains"], "checkpoints": r["uni"]["checkpoints"]}
+                        for r in runs],
+        }
+        core.write_evidence(prop_id, tier, seed, "model_checking", cov, ASSUMPTIONS, time.time() - t0, nviol)
+        return rc
     finally:
         shutil.rmtree(sc, ignore_errors=True)
